@@ -181,7 +181,7 @@ def _terms(v, acc):
                 _terms(x, acc)
 
 
-def params_cancel(spec, missing):
+def params_cancel(spec, missing, ops_only=False):
     """True iff no value of the specification's program depends on the parameters `missing`: they occur only in sub-expressions
     that cancel identically (e.g. {w}**2 * (j*0)), which is outside the properties"""
     acc = []
@@ -190,7 +190,7 @@ def params_cancel(spec, missing):
             _terms(a, acc)
         for x in o["kw"]:
             _terms(x["v"], acc)
-    for v in spec.get("vars", []):
+    for v in ([] if ops_only else spec.get("vars", [])):
         _terms(v["v"], acc)
     for t in acc:
         names = term_symbols(t)
